@@ -24,6 +24,10 @@ import scipy.stats as sts
 
 import core
 import sentinel
+
+# the tables under lean/VirVerif/Generated are regenerated from the tree under test: a table theorem that no
+# longer holds makes `lake build` fail, which for this property is a broken proof obligation, not a machinery error
+HANDLES_BUILD_FAILURE = True
 from core import f2b, b2f, fl
 
 TABLES = sentinel.generate()  # import time: before core.Check.lean() builds
